@@ -3,6 +3,7 @@ package rules
 import (
 	"fmt"
 	"go/token"
+	"go/types"
 	"strings"
 
 	"golang.org/x/tools/go/ssa"
@@ -23,13 +24,14 @@ func init() {
 				"(remove) RecalculateStakesV2 deletes exactly the tail [100:] of the ordered list and nothing when there are fewer than 100; DeleteCandidate freezes every stake and pending update with its full Value until height+GetUnbondPeriod() and zeroes it; " +
 				"(kick) in recalculateStakes the incoming update is kicked only when the smallest stake is strictly greater than it (an equal incoming stake replaces), the loser of either kind is passed to stakeKick with its own Owner/Value/Coin, and stakeKick hands exactly those to the waitlist.",
 			Assumptions: stdAssumptions,
-			Rules:       []string{"C17.select", "C17.power", "C17.keep", "C17.remove", "C17.kick", "C17.dirty"},
+			Rules:       []string{"C17.select", "C17.power", "C17.keep", "C17.remove", "C17.kick", "C17.dirty", "C17.flag"},
 		},
 		Run: runC17,
 	})
 }
 
 func runC17(c *core.Ctx) {
+	defer checkChangeFlags(c, "C17.flag")
 	defer checkSelection(c, "C17.select")
 	defer checkNewSetPersisted(c, "C17.dirty")
 	ct := c.Named(pkgCand, "Candidates")
@@ -550,4 +552,75 @@ func checkNewSetPersisted(c *core.Ctx, rule string) {
 		}
 	}
 	c.Check(n >= 1, rule, "SetNewValidators/members", fn.Pos(), "the new set is built here", "SetNewValidators no longer builds the members of the new set: the recogniser does not see the code it is meant to check")
+}
+
+// checkChangeFlags — C17.flag. A state module tells EndBlock that the validator set has to be
+// rebuilt through a boolean it raises while mutating (Candidates.isChangedPublicKeys, read through
+// IsChangedPublicKeys and reset afterwards). A mutator that raises such a flag raises it on EVERY
+// path to its normal return: a flag raised only under a further condition (evaluated after the
+// mutation, on already changed data) leaves the old validator entry in place — the application and
+// Tendermint then disagree about the set, and the next lookup of the stale entry dereferences nil.
+// Flags: bool fields of a state-module type that some exported method returns unchanged (the
+// getter) and that are stored `true` in another method.
+func checkChangeFlags(c *core.Ctx, rule string) {
+	n := 0
+	for _, tn := range []struct{ pkg, typ string }{{core.PkgState + "/candidates", "Candidates"}} {
+		t := c.Named(tn.pkg, tn.typ)
+		if t == nil {
+			c.Unk(rule, tn.typ, token.NoPos, "type not found")
+			continue
+		}
+		st, _ := t.Underlying().(*types.Struct)
+		for i := 0; st != nil && i < st.NumFields(); i++ {
+			fl := st.Field(i)
+			if b, ok := fl.Type().Underlying().(*types.Basic); !ok || b.Kind() != types.Bool {
+				continue
+			}
+			// has a getter?
+			getter := false
+			for _, r := range c.FieldReads(t, fl.Name()) {
+				if r.Fn.Object() != nil && r.Fn.Object().Exported() && r.Fn.Signature.Results().Len() == 1 && len(r.Fn.Blocks) <= 2 {
+					getter = true
+				}
+			}
+			if !getter {
+				continue
+			}
+			for _, w := range c.FieldWrites(t, fl.Name()) {
+				stt, ok := w.Instr.(*ssa.Store)
+				if !ok {
+					continue
+				}
+				k, isK := core.Unwrap(stt.Val).(*ssa.Const)
+				if !isK || k.Value == nil || k.Value.String() != "true" {
+					continue
+				}
+				fn := w.Fn
+				if fn.Blocks == nil || strings.HasPrefix(fn.Name(), "New") {
+					continue
+				}
+				n++
+				avoid := map[*ssa.BasicBlock]bool{stt.Block(): true}
+				reach := core.ReachFrom(fn.Blocks[0], avoid)
+				reach[fn.Blocks[0]] = true
+				skipped := ""
+				if stt.Block() != fn.Blocks[0] {
+					for _, r := range core.Returns(fn) {
+						if fn.Recover != nil && r.Block() == fn.Recover {
+							continue
+						}
+						if reach[r.Block()] {
+							skipped = c.PosStr(r.Pos())
+							if skipped == "" {
+								skipped = "the end of the function"
+							}
+						}
+					}
+				}
+				c.Check(skipped == "", rule, core.ShortFn(fn)+"/"+fl.Name(), stt.Pos(), "the flag is raised on every path to the method's return",
+					"the method can return (at "+skipped+") without raising "+fl.Name()+": what EndBlock does on that flag (rebuilding the validator set) is skipped although the module was changed")
+			}
+		}
+	}
+	c.Floor(rule, n, 1, "change flags raised by state-module mutators")
 }
